@@ -139,9 +139,43 @@ func monitorC12(cfg CheckConfig, res *hx.Result, traces []*Trace) error {
 			"shutter-service-chiado-1000": true, "shutter-api-gnosis-1002": true}[in0.Chain]
 		lastEnd := int64(0)
 		checked := map[common.Address]bool{}
+		// the monitor's own record of who has checked in with which validator key: the check-ins that were accepted
+		accepted := map[common.Address]string{}
 		for i, op := range t.H.Ops {
 			if op.Kind != "end" {
 				rr := im.Do(op)
+				if op.Kind == "init" {
+					accepted = map[common.Address]string{}
+				}
+				if op.Kind == "deliver" {
+					var who common.Address
+					var pl *Payload
+					if op.Tx.Garbage == nil {
+						if op.Tx.Signer < len(t.U.Addrs) {
+							who, pl = t.U.Addrs[op.Tx.Signer], &op.Tx.P
+						}
+					} else if signer, msg, ok := decodable(op.Tx.Garbage); ok {
+						who, pl = signer, PayloadFromMessage(msg.Msg)
+					}
+					if pl != nil && pl.Kind == "ci" && strings.HasPrefix(rr.Obs, "code=0") {
+						accepted[who] = string(pl.ValKey)
+					}
+					if im.App != nil {
+						bad := ""
+						for a, k := range im.App.Identities {
+							if v, ok := accepted[a]; !ok || v != k.Ed25519pubkey {
+								bad = fmt.Sprintf("the application holds a validator identity for %s that no accepted check-in gave it", a.Hex())
+							}
+						}
+						if bad == "" && len(im.App.Identities) != len(accepted) {
+							bad = "an accepted check-in is not among the application's validator identities"
+						}
+						if bad != "" {
+							specViolation(cfg, res, "history", bad+fmt.Sprintf(" (after op %d: %s => %s)", i, op.Line(t.U), rr.Obs), t.U, t.H.Ops[:i+1])
+							return nil
+						}
+					}
+				}
 				if op.Kind == "deliver" && op.Tx.Garbage == nil && op.Tx.P.Kind == "ci" && !overridden && op.Tx.Signer < len(t.U.Addrs) {
 					who := t.U.Addrs[op.Tx.Signer]
 					forkActive := in0.ForkOn && lastEnd+1 >= in0.ForkHeight
